@@ -101,6 +101,32 @@ func yamlPHClass(ph any, depth int) string {
 	return ""
 }
 
+// yamlStyleClass names the document shapes around the target that goccy's AST printer
+// gets wrong after a replacement (open entries of known_findings.json):
+//   - the target's own key line carries a comment and its value is a block collection
+//     on the following lines (`items: # note` / `  - a`): the comment is printed
+//     between the key and the colon;
+//   - the target lies inside a flow collection and the replacement is written as a plain
+//     scalar containing a flow indicator or a colon (`<Type:...>`, `a,b`), which the
+//     parser splits, rejects or reads as a mapping in flow context, or renders as a
+//     block sequence.
+func yamlStyleClass(st *vkit.YAMLStyle, p vkit.JPath, kind string, want any) string {
+	if st.CommentedKeys[p.YAMLPath()] {
+		return "yaml-target-key-carries-a-comment-before-its-block-value"
+	}
+	for k := len(p.Steps) - 1; k >= 1; k-- {
+		if st.Flow[vkit.JPath{Steps: p.Steps[:k]}.YAMLPath()] {
+			b, _ := goyaml.Marshal(want)
+			t := strings.TrimSuffix(string(b), "\n")
+			plain := !strings.HasPrefix(t, "\"") && !strings.HasPrefix(t, "'")
+			if kind == "type" || strings.HasPrefix(t, "- ") || (plain && strings.ContainsAny(t, ",[]{}:")) {
+				return "yaml-plain-placeholder-with-flow-indicators-or-block-sequence-inside-a-flow-collection"
+			}
+		}
+	}
+	return ""
+}
+
 // yamlApply runs a YAML matcher; a panic inside it is a violation of its own kind.
 func yamlApply(c *vkit.Ctx, class string, in any, f func() ([]byte, []match.MatcherError)) (out []byte, errs []match.MatcherError, ok bool) {
 	defer func() {
@@ -751,6 +777,11 @@ func c15YAMLDirect(c *vkit.Ctx, r *rand.Rand, i int) {
 	}
 	d := vkit.YAMLTreeDoc(r, 3)
 	text := vkit.YAMLFromTree(d)
+	var style *vkit.YAMLStyle
+	if r.IntN(2) == 0 {
+		text, style = vkit.YAMLFromTreeStyled(r, d)
+		c.Count("yaml_documents_with_comments_flow_collections_quoted_keys", 1)
+	}
 	if r.IntN(3) == 0 {
 		text = "# leading comment\n" + text
 	}
@@ -795,7 +826,10 @@ func c15YAMLDirect(c *vkit.Ctx, r *rand.Rand, i int) {
 	}
 	in := map[string]any{"sub": "yaml-direct", "document": text, "matcher": spec}
 	class := ""
-	if spec.Kind != "type" {
+	if style != nil {
+		class = yamlStyleClass(style, p, spec.Kind, want)
+	}
+	if class == "" && spec.Kind != "type" {
 		class = yamlPHClass(want, len(p.Steps))
 	}
 	out, errs, ok := yamlApply(c, class, in, func() ([]byte, []match.MatcherError) { return m.YAML([]byte(text)) })
